@@ -7,6 +7,7 @@ import random
 from vcommon import gz, glist, gbool, gopt
 
 EMBED = ["direct", "falsy", "list", "dict", "nested", "nested_list", "pre", "pre_task", "init", "explicit"]
+# (also "pre_from": the pre-tasks of the value are taken over; only for the values of VTaskLoad, set after generation)
 
 # the three directed schedules of DESIGN section 7 (#2, #3, #4); the schedule is a prefix, the run
 # continues with the run's PRNG
@@ -132,6 +133,31 @@ def gen_workload(rng, profile="c06"):
     krng = random.Random(w["seed"] ^ 0x70CE)
     w["tokkind"] = ["file" if krng.random() < 0.4 and not any(sum(1 for tt, _ in s["toks"] if tt == t) > 1 for s in jobs)
                     else "proc" for t in range(len(tokens))]
+    # (round 6) the serializer pattern and the hand-over of an output
+    uses = {k: [(j, how) for j, s in enumerate(jobs) for (kk, how) in s["embed"] if kk == k] for k in range(len(jobs))}
+    single = lambda k: jobs[k].get("copy_of") is None and not any(s.get("copy_of") == k for s in jobs)  # noqa
+    aspre = {k for s in jobs for (k, how) in s["embed"] if how.startswith("pre_task")}
+    for k, s in enumerate(jobs):
+        # VTaskLoad: the value is an unmarked configuration carrying a marked loader; consumers may take its
+        # pre-tasks over (`pre_from`); it cannot be used as a pre-task or named as an explicit dependency
+        if (s["cls"] in ("VTaskOut", "VTaskBag") and single(k) and not s.get("adopt") and krng.random() < 0.35
+                and not any(how.split("_obj")[0] in ("explicit", "pre_task") for (_j, how) in uses[k])):
+            s["cls"] = "VTaskLoad"
+            for r, s2 in enumerate(jobs):
+                if s2.get("copy_of") is not None:
+                    continue              # (a copy follows its original: same parameters)
+                group = [r] + [c for c, s3 in enumerate(jobs) if s3.get("copy_of") == r]
+                for idx, e in enumerate(s2["embed"]):
+                    if e[0] == k and not e[1].endswith("_obj") and e[1] != "falsy" and krng.random() < 0.6:
+                        for c in group:
+                            jobs[c]["embed"][idx][1] = "pre_from"
+    for j, s in enumerate(jobs):
+        # VTaskRelay: hands the output of its `direct` upstream on as its own output (the same object is
+        # re-marked): nobody else uses that upstream
+        d = [k for (k, how) in s["embed"] if how == "direct"]
+        if (s["cls"] in ("VTask", "VTaskOut") and single(j) and j not in aspre and d and krng.random() < 0.5
+                and jobs[d[0]]["cls"] in ("VTaskOut", "VTaskBag") and single(d[0]) and len(uses[d[0]]) == 1):
+            s["cls"] = "VTaskRelay"
     # some plain tasks are collection-like: falsy as long as their `items` parameter is empty
     # a re-submission may come with the Dependency objects of the first one (same requests then)
     for s in jobs:
@@ -238,7 +264,7 @@ def pre_init_upstream(w, trace, k, seen=None):
     out = set()
     for (k2, how) in w["jobs"][k]["embed"]:
         base = how[:-4] if how.endswith("_obj") else how
-        if base in ("pre", "pre_task", "init"):
+        if base in ("pre", "pre_task", "init", "pre_from"):
             r = resolve(trace, k2)
             out.add(r)
             if r not in seen:
@@ -454,6 +480,14 @@ def oracle_c07(w, trace, report):
         ups = registered_upstream(trace, j)
         if spec["marker"] or spec.get("adopt"):
             continue                 # decided by an earlier run (marker) or by the process it left running
+        # (the upstream tasks as the parameters name them, whatever submit() registered: a dependency lost at
+        #  extraction lets the failure through)
+        named = [k for k in upstream(w, trace, j) if res[k] == "ERROR"]
+        if named and (o["launches"] > 0 or o["result"] == "DONE"):
+            hows = sorted({h for (kk, h) in spec["embed"] if resolve(trace, kk) in named})
+            report("C07:launched-despite-failed-task-in-parameters:" + "+".join(hows),
+                   f"job {j}: task(s) {named} of its parameters (embedded as {hows}) ended ERROR; it was launched "
+                   f"{o['launches']} time(s), result {o['result']}; registered dependencies {ups}")
         if effective_failed_ancestor(w, trace, res, j, memo):
             if o["launches"] > 0:
                 report("C07:launched-despite-failed-ancestor", f"job {j} was launched; an ancestor ended ERROR")
@@ -777,3 +811,71 @@ def run_sched_check(c, profile, oracles, n_quick, n_thorough, golden_name, rule,
         "Dependency.check/ProcessCounterToken)",
         "the order in which a job's dependency set is iterated is recorded from the run and is an input of the model"]
     return cases, traces, bad
+
+
+# ------------------------------------------------------------------------------ real job processes (round 6)
+LEAVE_OK = ("exit:0", "return")
+LEAVE_EXIT = ["exit:0", "return", "exit:1", "exit:3", "exit:255", "exit:256", "exit:512", "exit:768", "exit:-256",
+              "exit:65536", "status:exit 1", "status:exit 2", "raise", "text"]
+
+
+def run_proc_probes(c, pid, payloads):
+    """Directed probes with real job processes (drive_procs.py): every way of leaving the task body through the
+    local launcher or the Slurm launcher (fake sbatch/srun/sacct of the tree, sacct with or without step lines).
+    The job is DONE exactly when the body returned or left with status 0; the job that depends on it is launched
+    exactly then; the independent job runs; leaving the experiment raises iff some job failed."""
+    import json as _json
+    from vcommon import run_impl
+    if c.replay:
+        rp = _json.load(open(c.replay))["replay"]
+        payloads = [rp["probe"]] if "probe" in rp else []
+    for pl in payloads:
+        c.evaluations += 1
+        tag = pl["mode"] + (":" + pl.get("sacct", "plain") if pl["mode"] == "slurm" else "")
+        c.count("probe:" + tag)
+        try:
+            o = run_impl("drive_procs.py", pl, timeout=400)
+        except Exception as e:  # noqa
+            c.violation("harness:run-did-not-complete", f"the real-process probe {tag} did not complete: {str(e)[-300:]}",
+                        dict(probe=pl))
+            continue
+        if o.get("error"):
+            c.violation("harness:run-did-not-complete", f"the real-process probe {tag} failed: {o['error'][-300:]}", dict(probe=pl))
+            continue
+
+        def report(key, what, pl=pl, o=o):
+            c.violation(key, what, dict(probe=pl, what=what, observed=o))
+
+        anyfail = False
+        for n, j in o["jobs"].items():
+            how = j["how"]
+            c.count("leave:" + how.split(" ")[0])
+            ok = how in LEAVE_OK
+            anyfail = anyfail or not ok
+            cls = "multiple-of-256" if (how.startswith("status:") or (how.startswith("exit:") and int(how[5:]) % 256 == 0
+                                                                        and int(how[5:]) != 0)) else "nonzero"
+            a = o["afters"]["a" + n[1:]]
+            if not j["started"]:
+                report(f"{pid}:probe:{tag}:job-not-run", f"the job that leaves with `{how}` was not run")
+                continue
+            if ok and j["state"] != "DONE":
+                report(f"{pid}:probe:{tag}:successful-job-not-DONE", f"body left with `{how}`: job state {j['state']}")
+            if not ok and j["state"] != "ERROR":
+                report(f"{pid}:probe:{tag}:failed-job-ends-{j['state']}:{cls}",
+                       f"body left with `{how}` (failure; .failed written: {j['failed_file']}, .done: {j['done_file']}): "
+                       f"job state {j['state']}")
+            if not ok and a["started"]:
+                report(f"{pid}:probe:{tag}:dependent-of-failed-job-launched:{cls}",
+                       f"the job that depends on the job that left with `{how}` was launched (its state: {a['state']})")
+            if not ok and a["state"] != "ERROR":
+                report(f"{pid}:probe:{tag}:dependent-of-failed-job-ends-{a['state']}:{cls}",
+                       f"the job that depends on the job that left with `{how}` ended {a['state']}")
+            if ok and (not a["started"] or a["state"] != "DONE"):
+                report(f"{pid}:probe:{tag}:dependent-of-successful-job-not-run",
+                       f"the job that depends on the job that left with `{how}`: started={a['started']} state={a['state']}")
+        al = o.get("alone")
+        if not al or not al["started"] or al["state"] != "DONE":
+            report(f"{pid}:probe:{tag}:independent-job-not-run", f"the independent job: {al}")
+        if o["raised"] != anyfail:
+            report(f"{pid}:probe:{tag}:exit-reports-" + ("success-although-a-job-failed" if anyfail else "failure-although-none-failed"),
+                   f"leaving the experiment raised={o['raised']}; some job failed={anyfail}")
